@@ -23,7 +23,7 @@ def run_one(m, repo, keep=False):
             if src.count(e["old"]) != 1:
                 return (m["id"], "skipped", "anchor text occurs %d times in %s" % (src.count(e["old"]), e["file"]))
             open(path, "w").write(src.replace(e["old"], e["new"]))
-        env = dict(os.environ, GOFLAGS="-mod=mod", GOPROXY="off", GOSUMDB="off", GOTOOLCHAIN="local")
+        env = dict(os.environ, GOFLAGS="-mod=mod -trimpath", GOPROXY="off", GOSUMDB="off", GOTOOLCHAIN="local")
         env.pop("GOWORK", None)
         b = subprocess.run(["go", "build", "./..."], cwd=dst, env=env, capture_output=True, text=True)
         if b.returncode != 0:
